@@ -53,6 +53,7 @@ type ServerKit struct {
 	// been recorded.
 	Handle func(ctx *fasthttp.RequestCtx, inv *Inv)
 	// RecordBody=false leaves the request body untouched (C02).
+	SkipHeaders bool
 	SkipBody bool
 }
 
@@ -106,8 +107,12 @@ func (k *ServerKit) handler(ctx *fasthttp.RequestCtx) {
 	} else {
 		inv.Proto = "HTTP/1.0"
 	}
-	for kk, v := range ctx.Request.Header.All() {
-		inv.Headers = append(inv.Headers, [2]string{string(kk), string(v)})
+	if !k.SkipHeaders {
+		// (iterating the header refreshes lazily maintained state such as the cookie
+		// list: scenarios that look for stale state ask the kit not to touch it first)
+		for kk, v := range ctx.Request.Header.All() {
+			inv.Headers = append(inv.Headers, [2]string{string(kk), string(v)})
+		}
 	}
 	if !k.SkipBody {
 		inv.Body = append([]byte{}, ctx.Request.Body()...)
